@@ -1,5 +1,5 @@
 """Rule registry and property -> rules mapping (DESIGN.md sections 3 and 4)."""
-from . import bounds, formula, safety, arith
+from . import bounds, formula, safety, arith, structure
 
 RULES = {}
 
@@ -64,6 +64,25 @@ rule("R-OVERLAP", arith.r_overlap, 20,
 rule("R-UNITS", arith.r_units, 45,
      "every pointer offset, copy/slice length, element count, capacity amount and layout size has the unit its sink requires (BYTES = elements x stride vs ELEMENTS); "
      "byte strides come from the type accessed through the pointer")
+
+rule("R-FIELDMAP", structure.r_fieldmap, 20,
+     "field-wise copies are the identity mapping: RawParts::clone, into_raw_parts o from_raw_parts, Mem raw-parts impls; no drop of self/raw/mem in into_raw_parts")
+rule("R-PROVENANCE", structure.r_provenance, 35,
+     "type-describing state (type_id, drop_fn, clone_fn, layout) is written only by constructors, from one consistent T / copied from the same-named source field; "
+     "reporters return that state")
+rule("R-ALLOCCONFINED", structure.r_allocconfined, 3, floor_no_alloc=0,
+     template="resolved paths into crate alloc occur only inside module mem::heap (positive control: the allocator calls of HeapMem::resize)")
+rule("R-HEAP", structure.r_heap, 12, floor_no_alloc=0,
+     template="allocator protocol of HeapMem::resize: alloc/realloc/dealloc only under their size/stride guards, with the layout of the allocation they refer to, "
+              "checked size multiplication and checked Layout, null check, size update, Drop => resize(0)")
+rule("R-ALIGN", structure.r_align, 7,
+     "every Mem::as_ptr/as_mut_ptr returns an allocation with the element alignment, dangling(layout) (address = align) or an inline field whose type guarantees the "
+     "largest element alignment build() admits")
+rule("R-ITER", structure.r_iter, 12,
+     "cursor discipline: next/next_back guarded by index != end, yield slot index / end-1, step by one, nothing stored on None; size_hint/len = end-index; "
+     "Clone copies cursors; the ops wrapper forwards to the same-named method")
+rule("R-SIG", structure.r_sig, 35,
+     "borrow-shaped signatures: exclusive handles only from &mut self; returned lifetimes are the receiver's borrow, not an impl-level lifetime; exclusive handles/iterators are not Clone")
 
 _EXPL = ("static rule conformance on the type-checked program (MIR exported by a rustc driver from /repo's working tree): "
          "decides the structural clauses named in DESIGN.md section 4 for this property, not the behavioural statement as a whole")
